@@ -400,6 +400,11 @@ class Check:
 
     # -- finish --------------------------------------------------------------
     def finish(self):
+        from . import history as _h
+        for ch in _h.STATE.get('process_state_changed', [])[:3]:
+            # every property quantifies over call histories: a library call (failed or not) that changes a process-wide setting
+            # changes what every later call in the process computes
+            self.fail('process-wide setting changed by %s: %s' % (ch['by'], ch['changed']), {'oracle': 'process-state', 'by': ch['by'], 'changed': ch['changed']})
         wall = time.time() - self.t0
         lean = self.lean
         broken = []
